@@ -56,6 +56,10 @@ pub struct DevCfg {
     /// disk-full: bytes beyond this device size are not accepted
     #[serde(default)]
     pub capacity: Option<u64>,
+    /// position of the (empty) destination when the writer is given it: a caller may hand over a
+    /// stream that is not at its start (a cursor that was used before); writers only
+    #[serde(default)]
+    pub start: u32,
 }
 
 #[derive(Clone, Debug, Default, Serialize, Deserialize)]
@@ -452,9 +456,11 @@ pub enum Stack {
 
 impl Stack {
     pub fn writer(world: &WorldRef, dev: usize, cfg: StackCfg) -> Stack {
+        let mut h = Handle::new(world, dev);
+        h.pos = world.borrow().plan.dev[dev].start as u64;
         match cfg {
-            StackCfg::Direct => Stack::Direct(Handle::new(world, dev)),
-            StackCfg::Buf(c) => Stack::BufW(BufWriter::with_capacity(c as usize, Handle::new(world, dev))),
+            StackCfg::Direct => Stack::Direct(h),
+            StackCfg::Buf(c) => Stack::BufW(BufWriter::with_capacity(c as usize, h)),
         }
     }
     pub fn reader(world: &WorldRef, dev: usize, cfg: StackCfg) -> Stack {
